@@ -158,6 +158,37 @@ def generate(rng, tier):
         lines.append("dom-end")
         exp.append({"ok": True, "ledger": "ok"})
         cases.append({"lines": lines, "exp": exp, "cls": f"pairs/{alloc}", "nontrivial": isinstance(v, list)})
+    # wide objects with record-like keys (short and long mixed) and a lookup map on one or both sides: reflexive, symmetric, independent of
+    # the map, of member order, of the allocator; a deep copy and the unequal neighbour
+    for k in range(40 if quick else 3000):
+        alloc = ["pool", "simple", "track"][k % 3]
+        lines, exp = ["dom-reset " + alloc], [{"ok": True}]
+
+        def emit(l, e=None):
+            lines.append(l)
+            exp.append(e or {"ok": True})
+        keys = D.wide_keys(rng)
+        v = D.obj([[kk, ("u", i)] for i, kk in enumerate(keys)])
+        w = tweak(rng, v)
+        build(rng, emit, 0, [], v)
+        build(rng, emit, 1, [], v, permute=True, extras=True)
+        build(rng, emit, 2, [], w, permute=True, extras=True)
+        for d in rng.sample([0, 1, 2], rng.choice([1, 2, 3])):
+            emit(f"dom-createmap {d} /")
+        q = lambda a, b: {"eq": "1" if D.jeq(a, b) else "0", "ne": "0" if D.jeq(a, b) else "1", "eqr": "1" if D.jeq(a, b) else "0", "refl": "1"}
+        emit("dom-eq 0 / 0 /", q(v, v))
+        emit("dom-eq 1 / 1 /", q(v, v))
+        emit("dom-eq 0 / 1 /", q(v, v))
+        emit("dom-eq 1 / 0 /", q(v, v))
+        emit("dom-eq 0 / 2 /", q(v, w))
+        emit("dom-eq 2 / 1 /", q(w, v))
+        emit(f"dom-copy 3 / 1 / {rng.choice('01')}")
+        emit("dom-eq 3 / 1 /", q(v, v))
+        emit("dom-eq 3 / 0 /", q(v, v))
+        emit("dom-eq 3 / 2 /", q(v, w))
+        lines.append("dom-end")
+        exp.append({"ok": True, "ledger": "ok"})
+        cases.append({"lines": lines, "exp": exp, "cls": f"wide/{alloc}", "nontrivial": True})
     # plus the generic op-sequence stream (dom-eq on random nodes)
     cases += c12.generate(rng, tier)[: (100 if quick else 8000)]
     return cases
